@@ -190,6 +190,7 @@ func runC08(c *Ctx) {
 
 	// (4) text agreement
 	c08Text(c, pkC)
+	c08ParseVerbatim(c)
 	for _, pk := range []*packages.Package{pkC, pkM} {
 		info := pk.TypesInfo
 		a, b := pkgVarLiteral(pk, "digestTypeToString"), pkgVarLiteral(pk, "stringToDigestType")
